@@ -103,6 +103,10 @@ pub fn run(ctx: &mut Ctx) {
                 triple(ctx, "computed:var", &json!({"var": "coll"}), p, &dd, Some(n > 0));
                 if n <= 2 {
                     triple(ctx, "computed:merge", &json!({"merge": [{"var": "coll"}]}), p, &dd, Some(n > 0));
+                    // computed without touching the data: the value of a constant expression is data all the same
+                    triple(ctx, "computed:constant:merge", &json!({"merge": [t]}), p, &d, Some(n > 0));
+                    triple(ctx, "computed:constant:if", &json!({"if": [true, t]}), p, &d, Some(n > 0));
+                    triple(ctx, "computed:constant:filter", &json!({"filter": [t, true]}), p, &d, None);
                 }
             }
         }
@@ -211,6 +215,44 @@ pub fn run(ctx: &mut Ctx) {
             }
         }
     }
+    // item-dependence: every way a predicate can depend on its element (var, var with default, missing,
+    // missing_some, a nested quantifier / map / reduce / in over a field of the element), over computed
+    // collections of objects that differ in what they carry; the first element is not representative
+    {
+        let elems = vec![json!({"qty": 1}), json!({"sku": "x"}), json!({"qty": 0, "tags": ["x"]}), json!({}), json!({"qty": 2, "sku": "y", "tags": []})];
+        let item_preds = vec![
+            json!({"var": "qty"}),
+            json!({"var": ["qty", true]}),
+            json!({"missing": ["qty"]}),
+            json!({"!": {"missing": ["qty"]}}),
+            json!({"missing": "sku"}),
+            json!({"missing_some": [1, ["qty", "sku"]]}),
+            json!({"!": [{"missing_some": [2, ["qty", "sku", "tags"]]}]}),
+            json!({"some": [{"var": "tags"}, {"==": [{"var": ""}, "x"]}]}),
+            json!({"in": ["x", {"var": "tags"}]}),
+            json!({"map": [{"var": "tags"}, 1]}),
+            json!({"reduce": [{"var": "tags"}, 1, 0]}),
+            json!({"filter": [{"var": "tags"}, true]}),
+            json!({"merge": [{"var": "tags"}]}),
+            json!({"log": {"missing": ["qty", "sku"]}}),
+            json!({"if": [{"missing": ["qty"]}, false, true]}),
+        ];
+        for n in 1..=(if ctx.tier_thorough { 4usize } else { 3usize }) {
+            for t in al::tuples(&elems, n) {
+                if !ctx.mine() {
+                    continue;
+                }
+                let dd = json!({"items": t, "qty": "OUTER", "sku": "OUTER", "tags": ["x"]});
+                for p in &item_preds {
+                    triple(ctx, "item-dependence:var", &json!({"var": "items"}), p, &dd, Some(true));
+                    if n <= 2 {
+                        triple(ctx, "item-dependence:merge", &json!({"merge": [{"var": "items"}, []]}), p, &dd, Some(true));
+                        triple(ctx, "item-dependence:filter", &json!({"filter": [{"var": "items"}, true]}), p, &dd, Some(true));
+                    }
+                }
+            }
+        }
+    }
     // null, empty and non-collections
     if ctx.mine() {
         let colls = vec![
@@ -224,4 +266,5 @@ pub fn run(ctx: &mut Ctx) {
             }
         }
     }
+    crate::spaces::render_probes(ctx, &["all", "some", "none"]);
 }
